@@ -236,6 +236,9 @@ Step(e) ==
               /\ Keep
          ELSE RejectItems(e, items) /\ UNCHANGED stats
     [] e.op = "layout" -> Keep /\ UNCHANGED stats        \* byte layout of the file: judged by C05Trace
+    [] e.op = "fdcheck" ->       \* after all files of the run were closed the process holds no more descriptors than before
+         IF e.after > e.before THEN Reject(e, "file-descriptors-leaked", [before |-> e.before, after |-> e.after, cases |-> e.cases]) /\ UNCHANGED stats
+         ELSE Keep /\ UNCHANGED stats
     [] OTHER -> Reject(e, "unknown-event", e.op) /\ UNCHANGED stats
 
 \* the model's own consistency (checked on every state of every trace)
